@@ -249,12 +249,20 @@ def analyse(repo):
             raise Unsupported("_get_dmdelays: unrecognised delay call: " + v)
 
     zero_dm = "if delta_dm == 0:\n    drifts = -1 * self._fph_shifts\n    self._fph_shifts.fill(0)\n    return drifts"
-    _expect("_get_dmdelays", _strip_doc(fn.body), [
+    body = list(_strip_doc(fn.body))
+    # optional statement right after the delay call that restores one dimension: `drifts = np.atleast_1d(drifts)` (or reshape)
+    made_1d_after = False
+    if len(body) == 10 and ast.unparse(body[6]) in ("drifts = np.atleast_1d(drifts)", "drifts = drifts.reshape(-1)",
+                                                    "drifts = drifts.reshape(self.nsubbands)", "drifts = np.reshape(drifts, -1)"):
+        made_1d_after = True
+        del body[6]
+    _expect("_get_dmdelays", body, [
         s_delta, zero_dm,
         "chan_width = self.header.foff * self.header.nchans / self.nsubbands",
         "freqs = np.arange(self.nsubbands, dtype=np.float64) * chan_width + self.header.fch1",
         s_tsamp, s_call,
         "bin_drifts = drifts - self._fph_shifts", "self._fph_shifts = drifts", "return bin_drifts"])
+    holes["dm_1d"] = holes["dm_1d"] or made_1d_after
 
     # ---- _get_pdelays ------------------------------------------------------------------------------
     fn = meths["_get_pdelays"][0]
